@@ -1,8 +1,22 @@
 package main
 
-import "golang.org/x/tools/go/ssa"
+import (
+	"fmt"
+	"go/ast"
+	"go/token"
+	"sort"
+	"strings"
+
+	"golang.org/x/tools/go/ssa"
+)
 
 func init() { register("C17", propC17) }
+
+func (c *Ctx) chainIs(rule, key string, pos token.Pos, v ssa.Value, want []string, rootDesc string, rootOK func(ssa.Value) bool) {
+	ts, root := convChain(v)
+	c.check(strings.Join(ts, ",") == strings.Join(want, ",") && rootOK(root), rule, key, pos, "conversion chain "+strings.Join(ts, "<-")+" from "+shape(root, 3),
+		fmt.Sprintf("%s: value is converted through %v from %s; expected %v of %s", key, ts, shape(root, 3), want, rootDesc))
+}
 
 func propC17(c *Ctx) propInfo {
 	const R = "E8.mustcheck"
@@ -15,6 +29,7 @@ func propC17(c *Ctx) propInfo {
 	if f := c.mustFn(R, "liteclient", "ParseADNLAddress"); f != nil {
 		c.mustDominate(R, f, 1, []requiredCheck{
 			{name: "crc16(body) == stored checksum", src: callResult("github.com/snksoft/crc.CalculateCRC", modPath+"/utils.Crc16"), kind: "eq"},
+			{name: "first byte == 0x2d", src: func(v ssa.Value) bool { return isIndexLoad(0)(v) }, kind: "eq"},
 		}, nil, "")
 		c.boundsAtSuccess("E8.bounds", f, 1, "len(addr)", lenOf(nil), 55, 55)
 	}
@@ -23,10 +38,380 @@ func propC17(c *Ctx) propInfo {
 			return derivesFrom(v, callResult("encoding/hex.DecodeString"), false)
 		}), 32, 32)
 	}
-	c.floor(R, 2)
-	c.floor("E8.bounds", 3)
-	return propInfo{
-		explanation: "Static structural clauses of C17 (DESIGN.md §4 C17): user-friendly and ADNL address parsers succeed only through the CRC16 equality and the exact length check; raw parser only with a 32-byte address; byte layouts of writer/reader equal the spec; workchain byte is sign-extended on read; CRC16 table equals the XMODEM polynomial table. Decides these necessary conditions, not the shard prefix/mask arithmetic.",
-		assumptions: []string{"third-party crc.XMODEM implements CRC-16/XMODEM", "encoding/base64, base32 behave as documented"},
+	if f := c.mustFn(R, "ton", "ParseShardID"); f != nil {
+		c.mustDominate(R, f, 1, []requiredCheck{
+			{name: "shard id != 0", src: func(v ssa.Value) bool { return v == ssa.Value(f.Params[0]) }, kind: "ne"},
+		}, nil, "")
 	}
+	c.floor(R, 3)
+	c.floor("E8.bounds", 3)
+	c.accountLayouts()
+	c.crc16Table()
+	return propInfo{
+		explanation: "Static structural clauses of C17: (1) the user-friendly and ADNL address parsers can return success only through the CRC16 equality test, the exact length test and (ADNL) the 0x2d tag test; the raw parser only with a 32-byte address; ParseShardID rejects 0. (2) E7 byte layouts: ToHuman writes tag|workchain|hash[2:34]|BE16 crc over [0:34] and the parser reads the same offsets; flag bits 0x80/0x40 are controlled by testnet / !bounce over base 0x11; AccountID.MarshalTL/UnmarshalTL are LE32 workchain | 32 bytes; ADNL base32 is 0x2d|addr|BE16 crc over the 33 bytes. (3) Width/sign chains: every reader undoes the writer's truncation with the inverse chain (byte->int8->int32 etc.), as one conversion, not a case analysis. (4) E11: utils.TABLE equals the CRC-16/XMODEM table for polynomial 0x1021 and Crc16/Crc16String are the MSB-first table-driven loop with initial value 0, so that the writer's utils.Crc16 and the reader's crc.XMODEM agree. (5) JSON/TL-B forms delegate to the raw / MsgAddress forms and assign both fields. NOT decided: shard prefix/mask arithmetic (shardChild/shardParent inverses, MatchAccountID prefix semantics) and the zero-fill arithmetic of the raw parser: value-level algebra over 64-bit words with no structural witness.",
+		assumptions: []string{"third-party crc.XMODEM implements CRC-16/XMODEM (poly 0x1021, init 0, no reflection)", "encoding/base64, encoding/base32, encoding/hex and strconv behave as documented"},
+	}
+}
+
+func (c *Ctx) accountLayouts() {
+	const R = "E7.bytelayout"
+	const W = "E7.width-chain"
+	// ---- user-friendly form
+	if f := c.mustFn(R, "ton", "AccountID.ToHuman"); f != nil {
+		ws := c.byteWrites(f)
+		c.layoutIs(R, "ToHuman = tag1 | workchain1 | hash32 | crc16 BE over [0:34]", f, ws, []byteField{
+			{"0", "1", "byte", ""}, {"1", "2", "byte", "Workchain"}, {"2", "34", "copy", "Address"}, {"34", "36", "BE16", "Crc16"},
+		})
+		for _, cl := range callsTo(f, modPath+"/utils.Crc16") {
+			_, lo, hi := sliceBounds(cl.Call.Args[0])
+			c.check((lo == "" || lo == "0") && hi == "34", R, "ToHuman crc covers buf[0:34]", cl.Pos(), "Crc16(buf[:34])", "ToHuman computes the checksum over buf["+lo+":"+hi+"], not over the 34 bytes tag|workchain|hash")
+		}
+		allInstrs(f, func(_ *ssa.BasicBlock, in ssa.Instruction) {
+			if st, ok := in.(*ssa.Store); ok {
+				if ia, ok := st.Addr.(*ssa.IndexAddr); ok {
+					if k, _ := constInt(ia.Index); k == 1 {
+						c.chainIs(W, "ToHuman workchain byte = uint8(int32 Workchain)", st.Pos(), st.Val, []string{"uint8", "int32"}, "id.Workchain", isFieldLoad("Workchain"))
+					}
+				}
+			}
+		})
+		// flag bits
+		flags := map[string]string{}
+		base := int64(-1)
+		allInstrs(f, func(b *ssa.BasicBlock, in ssa.Instruction) {
+			bo, ok := in.(*ssa.BinOp)
+			if !ok || bo.Op != token.OR {
+				return
+			}
+			k, ok := constInt(bo.Y)
+			if !ok {
+				return
+			}
+			// controlling branch: the unique predecessor's If
+			if len(b.Preds) != 1 {
+				return
+			}
+			iff := lastIf(b.Preds[0])
+			if iff == nil {
+				return
+			}
+			pol := b.Preds[0].Succs[0] == b
+			cond := iff.Cond
+			if u, ok := cond.(*ssa.UnOp); ok && u.Op == token.NOT {
+				cond = u.X
+				pol = !pol
+			}
+			if p, ok := cond.(*ssa.Parameter); ok {
+				flags[fmt.Sprintf("0x%02x", k)] = fmt.Sprintf("%s=%v", p.Name(), pol)
+			}
+			if kk, ok := constInt(bo.X); ok {
+				base = kk
+			} else if ph, ok := bo.X.(*ssa.Phi); ok {
+				for _, e := range ph.Edges {
+					if kk, ok := constInt(e); ok {
+						base = kk
+					}
+				}
+			}
+		})
+		c.check(flags["0x80"] == "testnet=true" && flags["0x40"] == "bounce=false" && len(flags) == 2 && base == 0x11, R, "ToHuman tag = 0x11 | 0x80 if testnet | 0x40 if !bounce", f.Pos(), fmt.Sprintf("base 0x%02x flags %v", base, flags),
+			fmt.Sprintf("ToHuman builds the tag byte as base 0x%02x with flags %v; the format is 0x11, |0x80 when testnet, |0x40 when not bounceable", base, flags))
+		okEnc := false
+		allInstrs(f, func(_ *ssa.BasicBlock, in ssa.Instruction) {
+			if cl, ok := in.(*ssa.Call); ok && callQName(&cl.Call) == "encoding/base64.Encoding.EncodeToString" {
+				okEnc = strings.Contains(shape(cl.Call.Args[0], 3), "URLEncoding")
+			}
+		})
+		c.check(okEnc, R, "ToHuman uses base64.URLEncoding", f.Pos(), "URL-safe alphabet with padding (36 bytes: no padding characters arise)", "ToHuman no longer encodes with base64.URLEncoding")
+	}
+	c.userFriendlyReader(c.mustFn(R, "ton", "AccountIDFromBase64Url"), "FromBase64Url")
+	c.userFriendlyReader(c.mustFn(R, "", "addressParser.ParseAddress"), "addressParser.ParseAddress")
+	// ---- TL form
+	if f := c.mustFn(R, "ton", "AccountID.MarshalTL"); f != nil {
+		c.layoutIs(R, "AccountID.MarshalTL = LE32 workchain | hash32", f, c.byteWrites(f), []byteField{{"", "4", "LE32", "Workchain"}, {"4", "36", "copy", "Address"}})
+		for _, cl := range callsTo(f, "encoding/binary.littleEndian.PutUint32") {
+			c.chainIs(W, "AccountID.MarshalTL workchain = uint32(int32)", cl.Pos(), cl.Call.Args[2], []string{"uint32", "int32"}, "id.Workchain", isFieldLoad("Workchain"))
+		}
+	}
+	if f := c.mustFn(R, "ton", "AccountID.UnmarshalTL"); f != nil {
+		rs := c.byteReads(f)
+		c.check(len(rs) == 1 && rs[0].how == "LE32", R, "AccountID.UnmarshalTL reads workchain LE32", f.Pos(), fieldsString(rs), "AccountID.UnmarshalTL reads the workchain as "+fieldsString(rs)+", the writer stores LE32")
+		c.widthChain(W, f, "Workchain", []string{"int32", "uint32"}, "LittleEndian.Uint32", isCallTo("encoding/binary.littleEndian.Uint32"))
+		// two ReadFull: 4 bytes then Address, in that order
+		rf := callsTo(f, "io.ReadFull")
+		okOrd := len(rf) == 2 && strings.Contains(shape(rf[1].Call.Args[1], 3), "Address") && !strings.Contains(shape(rf[0].Call.Args[1], 3), "Address") && (rf[0].Block() != rf[1].Block() && rf[0].Block().Dominates(rf[1].Block()) || before(rf[0], rf[1]))
+		c.check(okOrd, R, "AccountID.UnmarshalTL reads 4 bytes then the 32-byte hash", f.Pos(), "ReadFull(b[:4]) < ReadFull(id.Address[:])", "AccountID.UnmarshalTL no longer reads exactly the 4-byte workchain followed by the 32-byte hash with io.ReadFull")
+	}
+	// ---- TL-B form
+	if f := c.mustFn(R, "ton", "AccountID.ToMsgAddress"); f != nil {
+		c.widthChain(W, f, "WorkchainId", []string{"int8", "int32"}, "id.Workchain", isFieldLoad("Workchain"))
+		sums := map[string]bool{}
+		for _, st := range fieldStores(f, "SumType") {
+			if s, ok := constString(stripConv(st.Val)); ok {
+				sums[s] = true
+			}
+		}
+		c.check(sums["AddrStd"] && sums["AddrNone"] && len(sums) == 2, R, "ToMsgAddress: nil -> AddrNone, otherwise AddrStd", f.Pos(), fmt.Sprint(sums), "ToMsgAddress no longer maps a nil id to AddrNone and any other id to AddrStd")
+		okA := false
+		for _, st := range fieldStores(f, "Address") {
+			okA = okA || derivesFrom(st.Val, fieldLoadNamed("Address"), false)
+		}
+		c.check(okA, R, "ToMsgAddress copies the 256-bit hash", f.Pos(), "Address: id.Address", "ToMsgAddress no longer copies id.Address into the AddrStd address")
+	}
+	if f := c.mustFn(R, "ton", "AccountIDFromTlb"); f != nil {
+		c.widthChain(W, f, "Workchain", []string{"int32", "int8"}, "a.AddrStd.WorkchainId", isFieldLoad("WorkchainId"))
+	}
+	// ---- raw form
+	if f := c.mustFn(R, "ton", "AccountID.ToRaw"); f != nil {
+		okv := false
+		for _, cl := range callsTo(f, "fmt.Sprintf") {
+			s, _ := constString(cl.Call.Args[0])
+			okv = s == "%v:%x" || s == "%d:%x"
+		}
+		c.check(okv, R, "ToRaw = decimal workchain ':' lower-case hex of the 32 bytes", f.Pos(), `Sprintf("%v:%x", Workchain, Address)`, "ToRaw no longer formats as <decimal workchain>:<hex of the 32-byte hash>")
+	}
+	if f := c.mustFn(R, "ton", "AccountIDFromRaw"); f != nil {
+		okP := false
+		for _, cl := range callsTo(f, "strconv.ParseInt") {
+			b, _ := constInt(cl.Call.Args[1])
+			w, _ := constInt(cl.Call.Args[2])
+			okP = b == 10 && w == 32
+		}
+		c.check(okP, R, "FromRaw parses the workchain as base-10 int32", f.Pos(), "ParseInt(_, 10, 32)", "AccountIDFromRaw no longer parses the workchain as a base-10 32-bit signed integer")
+		c.widthChain(W, f, "Workchain", []string{"int32", "int64"}, "ParseInt result", isCallTo("strconv.ParseInt"))
+		c.check(len(callsTo(f, "encoding/hex.DecodeString")) == 1, R, "FromRaw decodes the hash as hex", f.Pos(), "hex.DecodeString", "AccountIDFromRaw no longer hex-decodes the address part")
+	}
+	// ---- JSON form: delegates to the raw form / ParseAccountID and assigns both fields
+	if f := c.mustFn(R, "ton", "AccountID.MarshalJSON"); f != nil {
+		okv := false
+		for _, cl := range callsTo(f, "encoding/json.Marshal") {
+			okv = derivesFrom(cl.Call.Args[0], callResult(modPath+"/ton.AccountID.ToRaw"), false)
+		}
+		c.check(okv, R, "AccountID.MarshalJSON = json string of ToRaw()", f.Pos(), "json.Marshal(id.ToRaw())", "AccountID.MarshalJSON no longer marshals the raw text form")
+	}
+	if f := c.mustFn(R, "ton", "AccountID.UnmarshalJSON"); f != nil {
+		okW, okA := false, false
+		for _, st := range fieldStores(f, "Workchain") {
+			okW = derivesFrom(st.Val, callResult(modPath+"/ton.ParseAccountID"), false)
+		}
+		for _, st := range fieldStores(f, "Address") {
+			okA = derivesFrom(st.Val, callResult(modPath+"/ton.ParseAccountID"), false)
+		}
+		c.check(okW && okA, R, "AccountID.UnmarshalJSON assigns workchain and hash from ParseAccountID", f.Pos(), "both fields from the parsed id", "AccountID.UnmarshalJSON no longer assigns both Workchain and Address from ParseAccountID's result")
+		for _, fld := range []string{"Workchain", "Address"} {
+			okD := true
+			for _, sp := range successPoints(f, 0) {
+				dom := false
+				for _, st := range fieldStores(f, fld) {
+					if st.Block().Dominates(sp.Block) {
+						dom = true
+					}
+				}
+				okD = okD && dom
+			}
+			c.check(okD, R, "AccountID.UnmarshalJSON assigns "+fld+" before every success return", f.Pos(), "store dominates the nil-error return", "AccountID.UnmarshalJSON can return nil without assigning "+fld)
+		}
+	}
+	if f := c.mustFn(R, "ton", "ParseAccountID"); f != nil {
+		okv := len(callsTo(f, modPath+"/ton.AccountIDFromRaw")) == 1 && len(callsTo(f, modPath+"/ton.AccountIDFromBase64Url")) == 1
+		c.check(okv, R, "ParseAccountID accepts the raw and the user-friendly form", f.Pos(), "AccountIDFromRaw, then AccountIDFromBase64Url", "ParseAccountID no longer tries both text forms")
+	}
+	// ---- ADNL base32
+	if f := c.mustFn(R, "liteclient", "ADNLAddressToBase32"); f != nil {
+		ws := c.byteWrites(f)
+		var be []byteField
+		for _, w := range ws {
+			if w.how != "byte" {
+				be = append(be, w)
+			}
+		}
+		ws = be
+		okCrc := len(ws) == 1 && ws[0].how == "BE16" && strings.Contains(ws[0].what, "Crc16")
+		c.check(okCrc, R, "ADNL base32: crc16 stored big-endian", f.Pos(), fieldsString(ws), "ADNLAddressToBase32 stores the checksum as "+fieldsString(ws)+", the parser reads it BE16")
+		var tag int64 = -1
+		var chain []string
+		allInstrs(f, func(_ *ssa.BasicBlock, in ssa.Instruction) {
+			if cl, ok := in.(*ssa.Call); ok && callQName(&cl.Call) == "encoding/base32.Encoding.EncodeToString" {
+				chain = appendChain(cl.Call.Args[1])
+			}
+			if st, ok := in.(*ssa.Store); ok {
+				if ia, ok := st.Addr.(*ssa.IndexAddr); ok && isByte(st.Val.Type()) {
+					if k, ok := constInt(ia.Index); ok && k == 0 {
+						tag, _ = constInt(st.Val)
+					}
+				}
+			}
+		})
+		c.check(tag == 0x2d && len(chain) >= 2, R, "ADNL base32 body = 0x2d | addr | crc", f.Pos(), fmt.Sprintf("tag 0x%x chain %v", tag, chain), fmt.Sprintf("ADNLAddressToBase32 builds tag 0x%x with pieces %v; the body is 0x2d | 32-byte address | crc16", tag, chain))
+		for _, cl := range callsTo(f, modPath+"/utils.Crc16") {
+			c.check(len(appendChain(cl.Call.Args[0])) == 2, R, "ADNL crc covers 0x2d|addr", cl.Pos(), "Crc16(tag|addr)", "ADNLAddressToBase32 computes the checksum over something other than tag|address")
+		}
+	}
+	if f := c.mustFn(R, "liteclient", "ParseADNLAddress"); f != nil {
+		rs := c.byteReads(f)
+		c.check(len(rs) == 1 && rs[0].how == "BE16" && rs[0].lo == "33", R, "ParseADNLAddress reads crc BE16 at [33:]", f.Pos(), fieldsString(rs), "ParseADNLAddress reads the checksum as "+fieldsString(rs)+", the writer stores it big-endian after the 33 bytes")
+		for _, cl := range callsTo(f, modPath+"/utils.Crc16") {
+			_, lo, hi := sliceBounds(cl.Call.Args[0])
+			c.check((lo == "" || lo == "0") && hi == "33", R, "ParseADNLAddress crc covers buf[0:33]", cl.Pos(), "Crc16(buf[:33])", "ParseADNLAddress computes the checksum over buf["+lo+":"+hi+"], the writer over the 33 bytes tag|address")
+		}
+		ws := c.byteWrites(f)
+		c.check(len(ws) == 1 && strings.Contains(ws[0].what, "[1:33]"), R, "ParseADNLAddress address = buf[1:33]", f.Pos(), fieldsString(ws), "ParseADNLAddress copies the address from "+fieldsString(ws)+", it is stored at [1:33]")
+	}
+	// ---- shards: the account prefix is the big-endian first 8 bytes of the hash
+	if f := c.mustFn(R, "ton", "ShardID.MatchAccountID"); f != nil {
+		rs := c.byteReads(f)
+		c.check(len(rs) == 1 && rs[0].how == "BE64" && (rs[0].lo == "" || rs[0].lo == "0") && rs[0].hi == "8", R, "MatchAccountID prefix = BE64(Address[:8])", f.Pos(), fieldsString(rs), "MatchAccountID takes the account prefix as "+fieldsString(rs)+"; the shard prefix is the big-endian first 8 bytes of the hash")
+	}
+	c.floor(R, 32)
+	c.floor(W, 8)
+}
+
+
+// userFriendlyReader: one reader of the 36-byte user-friendly form (there are two siblings: the
+// ton package parser and the root package's address parser).
+func (c *Ctx) userFriendlyReader(f *ssa.Function, label string) {
+	const R = "E7.bytelayout"
+	const W = "E7.width-chain"
+	if f == nil {
+		return
+	}
+	rs := c.byteReads(f)
+	c.check(len(rs) == 1 && rs[0].how == "BE16" && rs[0].lo == "34" && rs[0].hi == "36", R, label+" reads crc BE16 at [34:36]", f.Pos(), fieldsString(rs), fnName(f)+" reads the stored checksum as "+fieldsString(rs)+", the writer stores it big-endian at [34:36]")
+	for _, q := range []string{"github.com/snksoft/crc.CalculateCRC", modPath + "/utils.Crc16"} {
+		for _, cl := range callsTo(f, q) {
+			_, lo, hi := sliceBounds(cl.Call.Args[len(cl.Call.Args)-1])
+			c.check((lo == "" || lo == "0") && hi == "34", R, label+" crc covers b[0:34]", cl.Pos(), "crc(b[0:34])", fnName(f)+" computes the checksum over b["+lo+":"+hi+"], the writer over [0:34]")
+			if q == "github.com/snksoft/crc.CalculateCRC" {
+				c.check(strings.Contains(shape(cl.Call.Args[0], 2), "XMODEM"), R, label+" crc is XMODEM", cl.Pos(), "crc.XMODEM", fnName(f)+" no longer uses the CRC-16/XMODEM parameters")
+			}
+		}
+	}
+	c.widthChain(W, f, "Workchain", []string{"int32", "int8", "uint8"}, "b[1]", isIndexLoad(1))
+	var cp []byteField
+	for _, w := range c.byteWrites(f) {
+		if w.how == "copy" {
+			cp = append(cp, w)
+		}
+	}
+	okc := len(cp) == 1 && strings.Contains(cp[0].what, "[2:34]")
+	c.check(okc, R, label+" hash = b[2:34]", f.Pos(), fieldsString(cp), fnName(f)+" copies the hash from "+fieldsString(cp)+", the writer stores it at [2:34]")
+	// the workchain/hash are taken only under: len == 36 and crc equal
+	crcPass, _ := passingEdges(f, requiredCheck{src: callResult("github.com/snksoft/crc.CalculateCRC", modPath+"/utils.Crc16"), kind: "eq"})
+	for _, st := range fieldStores(f, "Workchain") {
+		dom := false
+		for _, e := range crcPass {
+			if edgeDominates(f, e, st.Block()) {
+				dom = true
+			}
+		}
+		c.check(dom, R, label+" uses the decoded bytes only after the checksum matched", st.Pos(), "store dominated by the crc-equal edge", fnName(f)+" assigns the workchain from bytes whose checksum has not been verified")
+		lo, hi, hasLo, hasHi := constBounds(f, st.Block(), lenOf(nil))
+		c.check(hasLo && hasHi && lo == 36 && hi == 36, R, label+" uses the decoded bytes only when len == 36", st.Pos(), "len(decoded) == 36 on every path to the store", fmt.Sprintf("%s reads the user-friendly fields with len(decoded) in [%d,%d] (bounded: %v,%v); the form is exactly 36 bytes", fnName(f), lo, hi, hasLo, hasHi))
+	}
+}
+
+// crc16Table: utils.TABLE is the CRC-16/XMODEM table; Crc16 and Crc16String are the standard
+// MSB-first table loop with initial value 0.
+func (c *Ctx) crc16Table() {
+	const R = "E11.crc16"
+	p := c.pkg("utils")
+	if p == nil {
+		c.bad(R, "utils package", token.NoPos, "package utils not loaded")
+		return
+	}
+	var vals []int64
+	var pos token.Pos
+	for _, file := range p.Syntax {
+		for _, d := range file.Decls {
+			if gd, ok := d.(*ast.GenDecl); ok {
+				if v := literalInts(p, gd, "TABLE"); v != nil {
+					vals = v
+					pos = gd.Pos()
+				}
+			}
+		}
+	}
+	okT := len(vals) == 256
+	bad := -1
+	for i := 0; okT && i < 256; i++ {
+		crc := uint16(i) << 8
+		for j := 0; j < 8; j++ {
+			if crc&0x8000 != 0 {
+				crc = crc<<1 ^ 0x1021
+			} else {
+				crc <<= 1
+			}
+		}
+		if int64(crc) != vals[i] {
+			okT = false
+			bad = i
+		}
+	}
+	c.check(okT, R, "utils.TABLE = CRC-16/XMODEM table (poly 0x1021, MSB first)", pos, "256 entries equal to the table generated from x^16+x^12+x^5+1", fmt.Sprintf("utils.TABLE has %d entries and differs from the CRC-16/XMODEM table at index %d", len(vals), bad))
+	// who may write TABLE
+	for _, f := range c.moduleFuncs() {
+		allInstrs(f, func(_ *ssa.BasicBlock, in ssa.Instruction) {
+			if st, ok := in.(*ssa.Store); ok {
+				root := st.Addr
+				if ia, ok := root.(*ssa.IndexAddr); ok {
+					root = ia.X
+					if u, ok := root.(*ssa.UnOp); ok {
+						root = u.X
+					}
+				}
+				if g, ok := root.(*ssa.Global); ok && g.Name() == "TABLE" && g.Pkg.Pkg.Name() == "utils" && f.Name() != "init" {
+					c.bad(R, fnName(f)+" writes utils.TABLE", st.Pos(), fnName(f)+" writes the exported CRC table at run time")
+				}
+			}
+		})
+	}
+	for _, name := range []string{"Crc16", "Crc16String"} {
+		f := c.mustFn(R, "utils", name)
+		if f == nil {
+			continue
+		}
+		// the loop-carried phi: init 0; update = (TABLE[((crc>>8)^uint16(b))&0xff] ^ (crc<<8)) [&0xffff]
+		var ops []string
+		initOK := false
+		allInstrs(f, func(_ *ssa.BasicBlock, in ssa.Instruction) {
+			switch x := in.(type) {
+			case *ssa.Phi:
+				if x.Type().Underlying().String() == "uint16" {
+					for _, e := range x.Edges {
+						if k, ok := constInt(e); ok && k == 0 {
+							initOK = true
+						}
+					}
+				}
+			case *ssa.BinOp:
+				k, isK := constInt(x.Y)
+				switch {
+				case x.Op == token.SHR && isK:
+					ops = append(ops, fmt.Sprintf("shr%d", k))
+				case x.Op == token.SHL && isK:
+					ops = append(ops, fmt.Sprintf("shl%d", k))
+				case x.Op == token.AND && isK:
+					ops = append(ops, fmt.Sprintf("and%x", k))
+				case x.Op == token.XOR:
+					ops = append(ops, "xor")
+				case x.Op == token.LSS || x.Op == token.ADD:
+				default:
+					ops = append(ops, x.Op.String())
+				}
+			}
+		})
+		sort.Strings(ops)
+		got := strings.Join(ops, " ")
+		c.check(initOK && got == "andff andffff shl8 shr8 xor xor", R, name+" is the MSB-first table loop with init 0", f.Pos(), got, name+" is no longer crc = TABLE[((crc>>8)^b)&0xff] ^ (crc<<8) starting from 0: operators "+got+fmt.Sprintf(" init0=%v", initOK))
+		// the table index derives from (crc>>8)^byte and the other xor operand is crc<<8
+		okIdx := false
+		allInstrs(f, func(_ *ssa.BasicBlock, in ssa.Instruction) {
+			if ia, ok := in.(*ssa.IndexAddr); ok {
+				s := shape(ia.Index, 5)
+				okIdx = okIdx || (strings.Contains(s, ">>8") && strings.Contains(s, "^") && strings.Contains(s, "&255"))
+			}
+		})
+		c.check(okIdx, R, name+" indexes the table with ((crc>>8)^b)&0xff", f.Pos(), "index shape", name+" no longer indexes the table with ((crc>>8)^byte)&0xff")
+	}
+	c.floor(R, 5)
 }
